@@ -245,7 +245,7 @@ pub fn replay(a: &Args) -> i32 {
             }
             ep.close(0u32.into(), b"");
             sim.sleep_ms(60).await;
-            let _ = sim.net(l).disconnect(subj);
+            sim.disconnect(l, subj);
             sim.sleep_ms(20).await;
         }
         // certificate shapes and proofs a party without the key can always produce
@@ -290,7 +290,7 @@ pub fn replay(a: &Args) -> i32 {
                 ep.close(0u32.into(), b"");
                 sim.sleep_ms(60).await;
                 for p in sim.net(l1).peers() {
-                    let _ = sim.net(l1).disconnect(p);
+                    sim.disconnect(l1, p);
                 }
                 sim.sleep_ms(20).await;
             } else {
@@ -327,7 +327,7 @@ pub fn replay(a: &Args) -> i32 {
                 acceptor.abort();
                 ep.close(0u32.into(), b"");
                 for p in sim.net(dialer).peers() {
-                    let _ = sim.net(dialer).disconnect(p);
+                    sim.disconnect(dialer, p);
                 }
                 sim.sleep_ms(60).await;
             }
